@@ -57,10 +57,10 @@ def build(flavour="plain", driver="simdrive"):
     os.makedirs(d, exist_ok=True)
     hd = headers_digest()
     lib_srcs = sorted(glob.glob(os.path.join(REPO, "src", "*.cpp")))
-    drv_src = os.path.join(VERIF, "harness", "cpp", driver + ".cpp")
+    drv_srcs = sorted(glob.glob(os.path.join(VERIF, "harness", "cpp", "*.cpp")))
     jobs = []
     objs = []
-    for s in lib_srcs + [drv_src]:
+    for s in lib_srcs + drv_srcs:
         with open(s, "rb") as fh:
             key = sha(fh.read() + hd.encode() + " ".join(COMMON + flags).encode() + s.encode())
         obj = os.path.join(d, os.path.basename(s) + "." + key[:24] + ".o")
